@@ -7,9 +7,10 @@ exact rational, `interval` when it is an elementary closed form; in addition `y 
 p-bit binary number -- the "evaluated exactly" clause):
   * legendre(n,x), chebyt(n,x), chebyu(n,x), hermite(n,x) [physicists' H_n], laguerre(n,a,x) [generalized L_n^a],
     gegenbauer(n,a,x) [C_n^(a)], jacobi(n,a,b,x) [P_n^(a,b)] at INTEGER degree n in 0..150, dyadic x (inside and outside
-    [-1,1], the points 0, +-1, 1/2, and points next to a zero of T_n/U_n/P_n), dyadic parameters a, b (also negative ones, negative
-    integers for laguerre/jacobi, a next to a non-positive integer for gegenbauer): exact value of the three-term recurrence
-    (jacobi: of the binomial sum) computed with Python Fractions;
+    [-1,1], the points 0, +-1, 1/2, points next to a zero of T_n/U_n/P_n, tiny |x| down to 2^-(2p+270) for legendre with odd n),
+    dyadic parameters a, b (also negative ones, negative integers for laguerre/jacobi, a = -m/2 +- 2^-k next to a pole for
+    gegenbauer): exact value of the three-term recurrence (jacobi: of the binomial sum) computed with Python Fractions; rational
+    points where the exact value is 0 (must return exactly 0);
   * terminating series hyp2f1(-n,b,c,x), hyp1f1(-n,b,x), hyp2f0(-n,b,x), hyp1f2, hyp2f2, hyp2f3, hyp3f2 and
     hyper([-n,a2..],[b1..],x) (p <= 4, q <= 3) with rational parameters given as int / (p,q) and dyadic x (any sign, |x| up to
     ~40): exact value of the finite sum; also two non-positive integer upper parameters and a negative integer lower
@@ -27,6 +28,9 @@ p-bit binary number -- the "evaluated exactly" clause):
 METAMORPHIC only (soundness lemmas lin3_violation/lin2_violation in /verif/coq_meta/Meta.v; a certified residual above the
 bound proves that one of the named calls violates the tolerance, a residual within the bound proves nothing):
   contiguous relations of hyp1f1 (in a), hyp2f1 (in a) and hyp0f1 (in b) at generic rational parameters and dyadic x.
+KNOWN FINDINGS on the unchanged tree (known_findings_B3.json, each in a kind with its own `regime`): exact-zero values raise
+ValueError instead of returning 0; jacobi(n,a,b,x) = nan for a negative integer a in [-n,-1] and integer b; legendre(odd n >= 3, x)
+returns x for |x| < 2^(-2(p+10)-10); gegenbauer returns 0 when a is within ~2^-(p+40) of a pole of Gamma(2a).
 NOT DECIDED: hyperu, whitm, whitw, meijerg, appellf1..4, hyper2d, bihyper, pcfd/pcfu/pcfv/pcfw, legenp/legenq off the
 polynomial (integer n, m) case, hermite/laguerre/... at non-integer degree, complex parameters/arguments, any single value of
 a non-terminating series at generic parameters (only the metamorphic residuals above), hyp2f1 on the cut x > 1, divergent
@@ -417,18 +421,27 @@ reg("legendre_nz", "legendre", lambda c, n, x: c.legendre(n, M(c, x)), q_legendr
     lambda rng, p: (lambda n: [n, near_zero_leg(rng, p, n)])(rng.randint(2, 40)), w=0.7, regime=NZ, exact=True)
 # legendre's own small-argument code for odd n: extra precision for 2^(-2(p+10)-10) <= |x| < 2^-5, `return x` below that
 reg("legendre_tiny", "legendre", lambda c, n, x: c.legendre(n, M(c, x)), q_legendre,
-    lambda rng, p: [2 * rng.randint(0, 20) + 1, Fraction(rng.choice([-1, 1]) * rng.randint(1, 2 ** 10), 2 ** rng.randint(12, 2 * p + 30))],
-    w=0.6, regime="polynomial-tiny-argument", exact=True)
+    lambda rng, p: [2 * rng.randint(0, 10) + 1, Fraction(rng.choice([-1, 1]) * rng.randint(1, 2 ** 10), 2 ** rng.randint(12, 2 * p + 30))],
+    w=0.6, regime="polynomial-tiny-argument", exact=True, maxprec=1000)
 reg("legendre_tiny_shortcut", "legendre", lambda c, n, x: c.legendre(n, M(c, x)), q_legendre,
-    lambda rng, p: [2 * rng.randint(0, 20) + 1, Fraction(rng.choice([-1, 1]) * rng.randint(1, 2 ** 10), 2 ** rng.randint(2 * p + 41, 2 * p + 240))],
-    w=0.4, regime="polynomial-tiny-argument-shortcut", exact=True)
+    lambda rng, p: [2 * rng.randint(0, 10) + 1, Fraction(rng.choice([-1, 1]) * rng.randint(1, 2 ** 10), 2 ** rng.randint(2 * p + 41, 2 * p + 240))],
+    w=0.4, regime="polynomial-tiny-argument-shortcut", exact=True, maxprec=1000)
 # degenerate parameters
 reg("laguerre_negint", "laguerre", lambda c, n, a, x: c.laguerre(n, a, M(c, x)), q_laguerre,
     lambda rng, p: [g_deg(rng, 40), -rng.randint(1, 12), g_x(rng, p, -4, 20, special=(1,))], w=0.7, regime="polynomial-negint-parameter",
     exact=True)
-reg("gegenbauer_nearpole", "gegenbauer", lambda c, n, a, x: c.gegenbauer(n, M(c, a), M(c, x)), q_gegenbauer,
-    lambda rng, p: [g_deg(rng, 30), Fraction(-rng.randint(0, 6), 2) + Fraction(rng.choice([-1, 1]), 2 ** rng.choice([6, 20, 45])),
-                    g_x11(rng, p)], w=0.6, regime="polynomial-near-pole-parameter", exact=True)
+def g_geg_nearpole(long_):
+    def g(rng, p):
+        k = rng.randint(p + 40, p + 120) if long_ else rng.choice([6, max(7, p // 2), p - 4])
+        return [g_deg(rng, 30), Fraction(-rng.randint(0, 6), 2) + Fraction(rng.choice([-1, 1]), 2 ** k), g_x11(rng, p)]
+    return g
+
+
+# a = -m/2 +- 2^-k: representable in p bits (k <= p-4) / much longer than the working precision (k >= p+40)
+reg("gegenbauer_nearpole", "gegenbauer", lambda c, n, a, x: c.gegenbauer(n, M(c, a), M(c, x)), q_gegenbauer, g_geg_nearpole(False),
+    w=0.6, regime="polynomial-near-pole-parameter", exact=True)
+reg("gegenbauer_nearpole_long", "gegenbauer", lambda c, n, a, x: c.gegenbauer(n, M(c, a), M(c, x)), q_gegenbauer, g_geg_nearpole(True),
+    w=0.3, regime="polynomial-near-pole-parameter-long", exact=True, maxprec=1000)
 reg("jacobi_negint_a", "jacobi", lambda c, n, a, b, x: c.jacobi(n, a, Mq(c, b), M(c, x)), q_jacobi,
     lambda rng, p: [g_deg(rng, 30), -rng.randint(1, 10), Fraction(2 * rng.randint(-6, 8) + 1, rng.choice([2, 4])), g_x11(rng, p)],
     w=0.6, regime="polynomial-jacobi-negint-a", exact=True)
@@ -588,7 +601,7 @@ def g_2f1_lt1(rng, p):
     return [-abs(g_mag(rng, p, 14, lo_exp=0))]
 
 
-reg("hyp2f1_1_1_2", "hyp2f1", lambda c, x: c.hyp2f1(1, 1, 2, M(c, x)), r_2f1_112, g_2f1_lt1, w=1.8, regime=CF)
+reg("hyp2f1_1_1_2", "hyp2f1", lambda c, x: c.hyp2f1(1, 1, 2, M(c, x)), r_2f1_112, g_2f1_lt1, w=1.8, regime=CF, maxprec=1000)
 
 
 def sq4(x, sign):
@@ -622,7 +635,7 @@ def r_2f1_abb(a, b, x):
 
 
 reg("hyp2f1_abb", "hyp2f1", lambda c, a, b, x: c.hyp2f1(PQ(a), PQ(b), PQ(b), M(c, x)), r_2f1_abb,
-    lambda rng, p: [g_q(rng), g_q(rng, True)] + g_2f1_lt1(rng, p), w=1.0, regime=CF)
+    lambda rng, p: [g_q(rng), g_q(rng, True)] + g_2f1_lt1(rng, p), w=1.0, regime=CF, maxprec=1000)
 
 
 def r_atan(x):
@@ -650,7 +663,7 @@ def g_in1(rng, p):
     return [g_near1(rng, p, rng.choice([-1, 1]))]
 
 
-reg("hyp2f1_atanh", "hyp2f1", lambda c, x: c.hyp2f1((1, 2), 1, (3, 2), M(c, x * x)), r_atanh, g_in1, w=1.6, regime=CF)
+reg("hyp2f1_atanh", "hyp2f1", lambda c, x: c.hyp2f1((1, 2), 1, (3, 2), M(c, x * x)), r_atanh, g_in1, w=1.6, regime=CF, maxprec=1000)
 
 
 def r_asin(x):
@@ -675,7 +688,7 @@ def r_euler(cc, n, b, x):
 
 
 reg("hyp2f1_euler", "hyp2f1", lambda c, cc, n, b, x: c.hyp2f1(PQ(cc + n), PQ(b), PQ(cc), M(c, x)), r_euler,
-    lambda rng, p: [g_q(rng, True), rng.randint(1, 10), g_q(rng)] + g_2f1_lt1(rng, p), w=1.8, regime="closed-form-euler")
+    lambda rng, p: [g_q(rng, True), rng.randint(1, 10), g_q(rng)] + g_2f1_lt1(rng, p), w=1.8, regime="closed-form-euler", maxprec=1000)
 
 
 def r_gauss(a, b, cc):
